@@ -15,6 +15,7 @@
 #include "density_sketch.hpp"
 #include "cpc_sketch.hpp"
 #include "bloom_filter.hpp"
+#include "req_sketch.hpp"
 static size_t g_max = 0;
 template<typename T> struct rec_alloc {
   using value_type = T;
@@ -61,6 +62,8 @@ int main() {
     probe("cpc bytes table_data_words", to_stream(s), 12, BIG, [](const std::string& b) { cpc_sketch_alloc<A>::deserialize(b.data(), b.size()); }); }
   { using A = rec_alloc<uint8_t>; auto f = bloom_filter_alloc<A>::builder::create_by_size(1024, 3, 1); f.update(1);
     probe("bloom stream num_longs", to_stream(f), 16, 0x0fffffffu, [](const std::string& b) { std::stringstream ss(b); bloom_filter_alloc<A>::deserialize(ss); }); }
+  { using A = rec_alloc<float>; req_sketch<float, std::less<float>, A> s(12); for (int i = 0; i < 1000; ++i) s.update((float) i);
+    probe("req stream compactor num_items", to_stream(s), 40, BIG, [](const std::string& b) { std::stringstream ss(b); req_sketch<float, std::less<float>, A>::deserialize(ss); }); }
   std::printf(bad ? "%d readers request memory unrelated to the image size after ONE corrupted field\n" : "OK (%d)\n", bad);
   return bad ? 1 : 0;
 }
